@@ -23,6 +23,7 @@ pub fn spec() -> PropSpec {
         assumptions: &["counts of DF values outside the nine formats are not asserted (no address rule is stated for them)", "reference acceptance predicate of C02/C04"],
         workers: 16,
         also_nochk: false,
+        fuzz_target: None,
         quick_budget_s: 900,
         thorough_budget_s: 3600,
         min_nontrivial_quick: 2_000,
